@@ -168,6 +168,21 @@ class Gen:
         raise AssertionError(k)
 
 
+class _Unwritable:
+    """stands where a leaf was: no primitive accepts it, so the write is rejected when it gets there (after what precedes it was written)"""
+
+
+def _poisoned(v):
+    """v with its LAST leaf replaced by something no spec can write; None when v has no inner structure to speak of"""
+    if isinstance(v, dict) and v:
+        k = list(v)[-1]
+        return {**v, k: _poisoned(v[k]) if isinstance(v[k], (dict, list, tuple)) and v[k] else _Unwritable()}
+    if isinstance(v, (list, tuple)) and v:
+        last = _poisoned(v[-1]) if isinstance(v[-1], (dict, list, tuple)) and v[-1] else _Unwritable()
+        return type(v)(list(v[:-1]) + [last]) if type(v) in (list, tuple) else None
+    return None
+
+
 def bounded_spec_trees(reg, tier, seed):
     import hippolyzer.lib.base.serialization as se
     rng = random.Random(seed)
@@ -207,6 +222,22 @@ def bounded_spec_trees(reg, tier, seed):
                         # generator and domain disagree: not a finding about the code
                         continue
                     seen.add((desc, enc[:24], endian, pod))
+                    # a spec object is long-lived and shared (module-level templates): a write that was rejected part-way leaves
+                    # nothing behind in it - the next value written through the same object encodes as it did before
+                    bad = _poisoned(v)
+                    if bad is not None and not pod:
+                        try:
+                            se.BufferWriter(endian).write(spec, bad)
+                        except Exception:  # noqa
+                            try:
+                                w3 = se.BufferWriter(endian)
+                                w3.write(spec, v)
+                                if w3.copy_buffer() != enc:
+                                    fail("combinators/state", f"after a rejected write through the same spec object the value encodes as {w3.copy_buffer().hex()[:40]}, "
+                                         f"before as {enc.hex()[:40]}", inp)
+                            except Exception as e:  # noqa
+                                fail("combinators/state", f"after a rejected write through the same spec object the value can no longer be written: "
+                                     f"{type(e).__name__}: {e}", inp)
                     if len(samples) < 3:
                         samples.append(dict(inp, encoding=enc.hex()[:60]))
                     if size is not None and len(enc) != size:
